@@ -55,17 +55,8 @@ mod verif_kani_list {
         if i < 0 || i >= n { None } else { Some(i as usize) }
     }
 
-    // @harness: list_range_matches_lrange
-    // @bound: list length <= 4; start, stop over all of isize; unwind 6
-    // @tier: quick
-    // @complete: false
-    #[kani::proof]
-    #[kani::unwind(6)]
-    fn list_range_matches_lrange() {
-        let n: usize = kani::any();
-        kani::assume(n <= MAXN);
-        let start: isize = kani::any();
-        let stop: isize = kani::any();
+
+    fn check_range(n: usize, start: isize, stop: isize) {
         let l = mk(n);
         let r = l.range(start, stop);
         assert!(l.len() == n);
@@ -80,38 +71,20 @@ mod verif_kani_list {
                 }
             }
         }
-        kani::cover!(n == MAXN && start == -2 && stop == -1);
+        // the drop glue of the containers is not under test (and dominates CBMC's time)
+        std::mem::forget(r);
+        std::mem::forget(l);
     }
-
-    // @harness: list_get_matches_lindex
-    // @bound: list length <= 4; index over all of isize; unwind 6
-    // @tier: quick
-    // @complete: false
-    #[kani::proof]
-    #[kani::unwind(6)]
-    fn list_get_matches_lindex() {
-        let n: usize = kani::any();
-        kani::assume(n <= MAXN);
-        let index: isize = kani::any();
+    fn check_get(n: usize, index: isize) {
         let l = mk(n);
         match (spec_index(n, index), l.get(index)) {
             (None, None) => {}
             (Some(i), Some(v)) => assert!(tag(v) as usize == i),
             _ => assert!(false),
         }
-        kani::cover!(n == MAXN && index == -4);
+        std::mem::forget(l);
     }
-
-    // @harness: list_set_matches_lset
-    // @bound: list length 1..=4 (LSET's documented precondition: the list exists, i.e. is not empty); index over all of isize; unwind 6
-    // @tier: quick
-    // @complete: false
-    #[kani::proof]
-    #[kani::unwind(6)]
-    fn list_set_matches_lset() {
-        let n: usize = kani::any();
-        kani::assume(1 <= n && n <= MAXN);
-        let index: isize = kani::any();
+    fn check_set(n: usize, index: isize) {
         let mut l = mk(n);
         let res = l.set(index, elem(99));
         assert!(l.len() == n);
@@ -123,20 +96,10 @@ mod verif_kani_list {
             assert!(tag(&l.items[k]) == want);
             k += 1;
         }
-        kani::cover!(n == MAXN && index == -1);
+        std::mem::forget(res);
+        std::mem::forget(l);
     }
-
-    // @harness: list_trim_matches_ltrim
-    // @bound: list length <= 4; start, stop over all of isize; unwind 6
-    // @tier: quick
-    // @complete: false
-    #[kani::proof]
-    #[kani::unwind(6)]
-    fn list_trim_matches_ltrim() {
-        let n: usize = kani::any();
-        kani::assume(n <= MAXN);
-        let start: isize = kani::any();
-        let stop: isize = kani::any();
+    fn check_trim(n: usize, start: isize, stop: isize) {
         let mut l = mk(n);
         l.trim(start, stop);
         match spec_window(n, start, stop) {
@@ -150,6 +113,198 @@ mod verif_kani_list {
                 }
             }
         }
-        kani::cover!(n == MAXN && start == 1 && stop == -2);
+        std::mem::forget(l);
+    }
+
+    // @harness: list_get_matches_lindex
+    // @bound: list length <= 4 (symbolic); index over all of isize; unwind 6
+    // @tier: quick
+    // @complete: false
+    #[kani::proof]
+    #[kani::unwind(6)]
+    fn list_get_matches_lindex() {
+        let n: usize = kani::any();
+        kani::assume(n <= MAXN);
+        let index: isize = kani::any();
+        check_get(n, index);
+        kani::cover!(n == MAXN && index == -4);
+    }
+
+    // @harness: list_range_len0
+    // @bound: LRANGE on the list of length 0; start, stop over all of isize; unwind 6
+    // @tier: thorough
+    // @complete: false
+    #[kani::proof]
+    #[kani::unwind(6)]
+    fn list_range_len0() {
+        let start: isize = kani::any();
+        let stop: isize = kani::any();
+        check_range(0, start, stop);
+        kani::cover!(start == 0 && stop == -1);
+    }
+
+    // @harness: list_range_len1
+    // @bound: LRANGE on the list of length 1; start, stop over all of isize; unwind 6
+    // @tier: thorough
+    // @complete: false
+    #[kani::proof]
+    #[kani::unwind(6)]
+    fn list_range_len1() {
+        let start: isize = kani::any();
+        let stop: isize = kani::any();
+        check_range(1, start, stop);
+        kani::cover!(start == 0 && stop == -1);
+    }
+
+    // @harness: list_range_len2
+    // @bound: LRANGE on the list of length 2; start, stop over all of isize; unwind 6
+    // @tier: thorough
+    // @complete: false
+    #[kani::proof]
+    #[kani::unwind(6)]
+    fn list_range_len2() {
+        let start: isize = kani::any();
+        let stop: isize = kani::any();
+        check_range(2, start, stop);
+        kani::cover!(start == 0 && stop == -1);
+    }
+
+    // @harness: list_range_len3
+    // @bound: LRANGE on the list of length 3; start, stop over all of isize; unwind 6
+    // @tier: quick
+    // @complete: false
+    #[kani::proof]
+    #[kani::unwind(6)]
+    fn list_range_len3() {
+        let start: isize = kani::any();
+        let stop: isize = kani::any();
+        check_range(3, start, stop);
+        kani::cover!(start == 0 && stop == -1);
+    }
+
+    // @harness: list_range_len4
+    // @bound: LRANGE on the list of length 4; start, stop over all of isize; unwind 6
+    // @tier: thorough
+    // @complete: false
+    #[kani::proof]
+    #[kani::unwind(6)]
+    fn list_range_len4() {
+        let start: isize = kani::any();
+        let stop: isize = kani::any();
+        check_range(4, start, stop);
+        kani::cover!(start == 0 && stop == -1);
+    }
+
+    // @harness: list_trim_len0
+    // @bound: LTRIM on the list of length 0; start, stop over all of isize; unwind 6
+    // @tier: thorough
+    // @complete: false
+    #[kani::proof]
+    #[kani::unwind(6)]
+    fn list_trim_len0() {
+        let start: isize = kani::any();
+        let stop: isize = kani::any();
+        check_trim(0, start, stop);
+        kani::cover!(start == 0 && stop == -1);
+    }
+
+    // @harness: list_trim_len1
+    // @bound: LTRIM on the list of length 1; start, stop over all of isize; unwind 6
+    // @tier: thorough
+    // @complete: false
+    #[kani::proof]
+    #[kani::unwind(6)]
+    fn list_trim_len1() {
+        let start: isize = kani::any();
+        let stop: isize = kani::any();
+        check_trim(1, start, stop);
+        kani::cover!(start == 0 && stop == -1);
+    }
+
+    // @harness: list_trim_len2
+    // @bound: LTRIM on the list of length 2; start, stop over all of isize; unwind 6
+    // @tier: thorough
+    // @complete: false
+    #[kani::proof]
+    #[kani::unwind(6)]
+    fn list_trim_len2() {
+        let start: isize = kani::any();
+        let stop: isize = kani::any();
+        check_trim(2, start, stop);
+        kani::cover!(start == 0 && stop == -1);
+    }
+
+    // @harness: list_trim_len3
+    // @bound: LTRIM on the list of length 3; start, stop over all of isize; unwind 6
+    // @tier: quick
+    // @complete: false
+    #[kani::proof]
+    #[kani::unwind(6)]
+    fn list_trim_len3() {
+        let start: isize = kani::any();
+        let stop: isize = kani::any();
+        check_trim(3, start, stop);
+        kani::cover!(start == 0 && stop == -1);
+    }
+
+    // @harness: list_trim_len4
+    // @bound: LTRIM on the list of length 4; start, stop over all of isize; unwind 6
+    // @tier: thorough
+    // @complete: false
+    #[kani::proof]
+    #[kani::unwind(6)]
+    fn list_trim_len4() {
+        let start: isize = kani::any();
+        let stop: isize = kani::any();
+        check_trim(4, start, stop);
+        kani::cover!(start == 0 && stop == -1);
+    }
+
+    // @harness: list_set_len1
+    // @bound: LSET on the list of length 1; index over all of isize; unwind 6
+    // @tier: thorough
+    // @complete: false
+    #[kani::proof]
+    #[kani::unwind(6)]
+    fn list_set_len1() {
+        let index: isize = kani::any();
+        check_set(1, index);
+        kani::cover!(index == -1);
+    }
+
+    // @harness: list_set_len2
+    // @bound: LSET on the list of length 2; index over all of isize; unwind 6
+    // @tier: thorough
+    // @complete: false
+    #[kani::proof]
+    #[kani::unwind(6)]
+    fn list_set_len2() {
+        let index: isize = kani::any();
+        check_set(2, index);
+        kani::cover!(index == -1);
+    }
+
+    // @harness: list_set_len3
+    // @bound: LSET on the list of length 3; index over all of isize; unwind 6
+    // @tier: quick
+    // @complete: false
+    #[kani::proof]
+    #[kani::unwind(6)]
+    fn list_set_len3() {
+        let index: isize = kani::any();
+        check_set(3, index);
+        kani::cover!(index == -1);
+    }
+
+    // @harness: list_set_len4
+    // @bound: LSET on the list of length 4; index over all of isize; unwind 6
+    // @tier: thorough
+    // @complete: false
+    #[kani::proof]
+    #[kani::unwind(6)]
+    fn list_set_len4() {
+        let index: isize = kani::any();
+        check_set(4, index);
+        kani::cover!(index == -1);
     }
 }
